@@ -61,6 +61,8 @@ def run(ctx, chk):
                    "every type decoded from the wire is in the table")
     chk.rule("X2", "the validator's accept region equals the reference region exactly")
     run_on(fb, chk, validity.VALID)
+    from . import xlist
+    xlist.apply("C20", fb, chk)
     n = lambda r: len([i for i in chk.instances if i[0] == r])
     chk.floor("X2", n("X2"), 26)
     chk.extra["exhaustive"] = True
